@@ -2,7 +2,8 @@ SPECIFICATION Spec
 CONSTANTS
   Users = {"u1"}
   Flags = {"R", "F", "T"}
-  MaxCalls = 5
+  FlagSets = {{"R"}, {"F"}, {"T"}, {"R", "F"}, {"R", "F", "T"}}
+  MaxCalls = 4
   MaxFaults = 2
   MaxCloses = 1
   Fifo = TRUE
